@@ -16,8 +16,10 @@ RULE = ("case = (acyclic pre/post graph over 2-6 tasks with parameters and defau
         "sub-collections; request list of length 0-3 in one of four forms: names, (name, kwargs) pairs, contexts from the "
         "real Parser, argv through the real Program; dedupe on/off via config, --no-dedupe or the built-in default).  Every "
         "case runs the real Executor.execute; a case is non-trivial when the expansion has at least two invocations; "
-        "distinct = distinct canonical cases.  Exhaustive part: every graph over <=3 (thorough: <=4) parameterless tasks "
-        "with <=2 pre+post edges per task x every request list of length <=3 x dedupe on/off")
+        "distinct = distinct canonical cases.  Exhaustive part: every graph over <=3 parameterless tasks with <=2 pre+post "
+        "edges per task x every request list of length <=3 x dedupe on/off; thorough adds every such graph over 4 tasks "
+        "(3468 graphs) x every request list of length <=2 with dedupe on, and a random 12% of the length-3 requests / 25% "
+        "of the dedupe-off runs")
 TRUSTED = ["Lean 4.33 kernel", "axioms propext/Classical.choice/Quot.sound only",
            "harness/props/c04.py correspondence + canonicalisation (Task subclass that records the literal call arguments)",
            "CPython argument binding, dict/tuple equality (modelled: kwEq, bind)",
@@ -262,6 +264,9 @@ def model_line(case, reqkw):
 def canon_impl(r):
     log = []
     for tid, _bound, pos, kw in r["log"]:
+        if pos is None or kw is None:  # the literal call arguments were not observable (Task.__call__ bypassed)
+            log.append("%d/?/?" % tid)
+            continue
         log.append("%d/%s/%s" % (tid, enc_pos([canon_val(v) for v in pos]),
                                  enc_kw(sorted((k, canon_val(v)) for k, v in kw.items()))))
     res = "-"
@@ -503,9 +508,6 @@ def run(ctx):
     for n in ((1, 2, 3, 4) if big else (1, 2, 3)):
         graphs = list(exhaustive_graphs(n, 2))
         reqs = [list(r) for k in range(1, 4) for r in itertools.product(range(n), repeat=k)]
-        if n == 4:
-            # every graph with every request of length <= 2, plus a random third of the length-3 requests
-            pass
         for g in graphs:
             for rq in reqs:
                 if n == 4 and len(rq) == 3 and rng.random() > 0.12:
@@ -543,6 +545,10 @@ def run(ctx):
             mlog, mres, hyp = canon_model(m)
             out.traces += 1
             out.hist["theorem_hyp_effective_args:" + hyp] += 1
+            if "?" in ilog:  # compare the order of task identities only
+                ilog = ",".join(x.split("/")[0] for x in ilog.split(",") if x)
+                mlog = ",".join(x.split("/")[0] for x in mlog.split(",") if x)
+                out.hist["literal_args_unobserved"] += 1
             if ilog != mlog or (ires != "-" and ires != mres):
                 out.disagree(c, {"log": ilog, "results": ires}, {"log": mlog, "results": mres})
         why = oracle(c, r)
